@@ -18,6 +18,8 @@ def run(rep, prog, tier):
     rep.rule("C13-R3", "forwarding agreement: a DocSet / Scorer method of a wrapper type whose body consists of one call of a DocSet / Scorer protocol method on a field of `self` with its own parameters forwards to the method of the same name (a `seek` that forwards to `advance`, or a `doc` that forwards to `size_hint`, observes another sequence)")
     rep.not_decided += ["order and content of the documents enumerated by any iterator, seek arithmetic, window horizons, block boundaries, TERMINATED stickiness (values over programs of calls)"]
     memo_invalidation(rep, prog, "C13-R2")
+    rep.rule("C13-R4", "sibling reset agreement: when a DocSet type's `advance` and `seek` both reset a field of self (store into it or clear it: position-dependent state such as a cache of the current document's positions), every other moving method the type overrides (seek_danger, fill_buffer, fill_bitset_block) resets it too, directly or through a method of self it calls")
+    sibling_resets(rep, prog, "C13-R4")
     forwarding(rep, prog, "C13-R3")
 
 
@@ -123,6 +125,61 @@ def memo_invalidation(rep, prog, R):
             rep.check(nmv >= 1, R, "%s: moving methods found for memo %s" % (tshort, fmt_path(memo)), "%d moving call(s)" % nmv,
                       "cannot establish: %s memoises in score() but no DocSet method of it moves a sub-docset" % ty, site=sb.span)
     rep.floor(R, "score memos found (RequiredOptionalScorer.score_cache)", nmemo, 1)
+
+
+def sibling_resets(rep, prog, R):
+    """what both `advance` and `seek` reset, every other moving method resets too (or delegates)"""
+    from ..mergecov import Aliases, fmt_path
+    RESET_CALL = re.compile(r"::(clear|truncate|take|reset)$")
+    types = {}
+    for n in prog.bodies:
+        m = re.match(r"^<(.+) as tantivy::docset::DocSet>::([a-z_]+)$", n)
+        if m:
+            types.setdefault(m.group(1), {})[m.group(2)] = n
+    memo = {}
+
+    def resets(fid, depth=0):
+        """paths (up to variant.field depth) of self that fid stores into or clears, including through methods of self it calls"""
+        if fid in memo:
+            return memo[fid]
+        memo[fid] = set()
+        b = prog.bodies[fid]
+        al = Aliases(b, {1: "self"})
+        out = set()
+        for u in al.uses():
+            if u[1] == "self" and u[0] == "w" and u[4] == "store" and u[2]:
+                out.add(u[2][:2] if u[2][0][0] == "v" else u[2][:1])
+        for bi, t in b.calls():
+            f = t.get("res") or t.get("f") or ""
+            if not t.get("args"):
+                continue
+            r = al.resolve(op_place(t["args"][0]))
+            if r and r[0] == "self":
+                if RESET_CALL.search(f) and r[1]:
+                    out.add(r[1][:2] if r[1][0][0] == "v" else r[1][:1])
+                elif r[1] == () and f in prog.bodies and depth < 3:
+                    out |= resets(f, depth + 1)      # a method of self
+        memo[fid] = out
+        return out
+    n_types = 0
+    for ty, ms in sorted(types.items()):
+        if not ({"advance", "seek"} <= set(ms)):
+            continue
+        common = resets(ms["advance"]) & resets(ms["seek"])
+        if not common:
+            continue
+        n_types += 1
+        tshort = ty.split("<")[0].split("::")[-1]
+        for m in ("seek_danger", "fill_buffer", "fill_bitset_block"):
+            if m not in ms:
+                continue
+            got = resets(ms[m])
+            missing = sorted(fmt_path(x) for x in common - got)
+            rep.check(not missing, R, "%s::%s resets what advance and seek reset" % (tshort, m), "resets %s" % sorted(fmt_path(x) for x in common),
+                      "`%s` overrides %s but, unlike its advance and its seek, never resets self%s (neither directly nor through a method of self): state that belongs to the previous position "
+                      "(a cache of the current document's data) survives the move, the docset answers for the new document with the old document's data"
+                      % (ty, m, ", self".join(missing)), site=prog.bodies[ms[m]].span)
+    rep.floor(R, "DocSet types whose advance and seek reset a common field", n_types, 6)
 
 
 def forwarding(rep, prog, R):
